@@ -22,8 +22,11 @@ Full-strength statement that is *not* a theorem of the current code (kept visibl
 
 for `Doc` = the generator AST of `harness/src/markdown.rs` (every item kind).  It is decided for the
 generated documents by the by-construction oracle of the harness (streams `ast-by-construction`,
-`ast-prefixes`), not proved here.  Readings of the property that the code does not implement are
-proved as witnesses below (`C06_*_witness`) and reported by the harness under their own classes.
+`ast-prefixes`), not proved here.  Four readings of the property that the code did not implement
+when this check first ran (harness classes `C06:state-leak`, `C06:bare-long-fence`,
+`C06:info-string-whitespace`, `C06:config-dropped`) have been repaired by `fix:` commits; the
+model follows the repaired code, the former witnesses are kept below as closed examples and in
+the harness stream `reading-witnesses`.
 -/
 namespace Scrut.Props.C06
 open Scrut Scrut.Markdown Scrut.LineParser
@@ -87,25 +90,23 @@ theorem C06_example_document :
         [{ title := ['T'], command := [['x']], exitCode := some 7, expectations := [['o']],
            lineNumber := 5, config := some none }] } := by rfl
 
-/-- Reading not implemented (harness class `C06:state-leak`): a block that holds only `[1]`
-hands its exit code to the test of the next block. -/
-theorem C06_state_leak_witness :
+/-- Repaired by fix 0c1f918 (was harness class `C06:state-leak`): a block that holds only `[1]` is
+rejected; its exit code is not handed to the test of the next block. -/
+theorem C06_exit_code_without_command_rejected :
     parseLines envAll
       [['`', '`', '`', 's', 'c', 'r', 'u', 't'], ['[', '1', ']'], ['`', '`', '`'],
        ['`', '`', '`', 's', 'c', 'r', 'u', 't'], ['$', ' ', 'x'], ['`', '`', '`']]
-    = .ok { docConfigs := [], tests :=
-        [{ title := [], command := [['x']], exitCode := some 1, expectations := [],
-           lineNumber := 5, config := some none }] } := by rfl
+    = .error (.lineParser (.exitCodeWithoutCommand 2)) := by rfl
 
-/-- Reading not implemented (harness class `C06:bare-long-fence`): a line of four backticks is not
-a fence start for the code, so the block inside it is a test. -/
-theorem C06_bare_long_fence_witness :
-    extractCodeBlockStart ['`', '`', '`', '`'] = .ok none := by rfl
+/-- Repaired by fix d82a4b7 (was `C06:bare-long-fence`): a line of four backticks opens a code
+block without language (which `parse` then reports like the bare "```"). -/
+theorem C06_bare_long_fence :
+    extractCodeBlockStart ['`', '`', '`', '`'] = .ok (some (['`', '`', '`', '`'], [], [])) := by rfl
 
-/-- Reading not implemented (harness class `C06:info-string-whitespace`): "``` scrut" has the
-language " scrut", hence is a foreign block. -/
-theorem C06_info_string_whitespace_witness :
-    extractCodeBlockStart ['`', '`', '`', ' ', 's', 'c', 'r', 'u', 't']
-      = .ok (some (['`', '`', '`'], [' ', 's', 'c', 'r', 'u', 't'], [])) := by rfl
+/-- Repaired by fix d36f745 (was `C06:info-string-whitespace`, `C06:config-dropped`): white space
+around the language and after the configuration is ignored. -/
+theorem C06_info_string_whitespace :
+    extractCodeBlockStart ['`', '`', '`', ' ', 's', 'c', 'r', 'u', 't', ' ', '{', 'a', '}', ' ']
+      = .ok (some (['`', '`', '`'], ['s', 'c', 'r', 'u', 't'], ['{', 'a', '}'])) := by rfl
 
 end Scrut.Props.C06
